@@ -195,7 +195,9 @@ func runC19(c *Ctx) {
 	id1, _ := resource.NewIdentity("Patient", "a", "")
 	id2, _ := resource.NewIdentity("Patient", "a", "2")
 	id3, _ := resource.NewIdentity("Observation", "a", "")
-	for _, id := range []*resource.Identity{id1, id2, id3} {
+	id0, _ := resource.NewIdentity("Patient", "a", "1") // another version of the same resource (id1 has none, id2 has version 2)
+	id4, _ := resource.NewIdentity("Patient", "A", "1") // ids are case-sensitive
+	for _, id := range []*resource.Identity{id1, id2, id3, id0, id4} {
 		pool = append(pool, reference.TypedFromIdentity(id), reference.Weak(id.Type(), id.PreferRelativeVersionedURIString()), reference.Weak(id.Type(), "http://x/fhir/"+id.PreferRelativeVersionedURIString()))
 	}
 	withDisplay := proto.Clone(pool[0]).(*dtpb.Reference)
